@@ -278,8 +278,8 @@ Qed.
 (* qr(pos_diag_R=True) on one real block, R of shape (P, N), K = min(P, N) = len(diag(R)), phase = r_kk / |r_kk|:
    if no diagonal entry of R is zero, the call succeeds and Q' = Q.phase, R' = conj(phase).R satisfy Q'R' = QR
    (every entry), diag R' > 0, zeros of R stay zeros (triangularity is preserved), orthonormal columns of Q stay
-   orthonormal.  With a zero on the diagonal (rank-deficient block) the code divides 0/0: NaN (finding F05.3), modelled
-   as None: T05_qr_pos_diag_nan. *)
+   orthonormal.  With a zero on the diagonal (rank-deficient block) the phase is 1 (the row of R and the column of Q
+   are kept; before the fix of finding F05.3 the code divided 0/0 = NaN): T05_qr_pos_diag_zero. *)
 Theorem T05_qr_pos_diag : forall P N Q R, (forall k, (k < Nat.min P N)%nat -> R k k <> 0) ->
   exists Q' R', pos_diag P N Q R = Some (Q', R') /\
     (forall r c, sumn P (fun k => Q' r k * R' k c) = sumn P (fun k => Q r k * R k c)) /\
@@ -294,7 +294,10 @@ Example T05_qr_pos_diag_example :
   | Some (Q, R) => Some (tab 2 2 Q, tab 2 3 R) | None => None end
   = Some ([[-1; 0]; [0; 1]], [[2; -1; -5]; [0; 3; -1]]).
 Proof. vm_compute. reflexivity. Qed.
-Example T05_qr_pos_diag_nan : pos_diag 2 2 (of_rows [[1; 0]; [0; 1]]) (of_rows [[-2; 1]; [0; 0]]) = None.
+Example T05_qr_pos_diag_zero :
+  match pos_diag 2 2 (of_rows [[1; 0]; [0; 1]]) (of_rows [[-2; 1]; [0; 0]]) with
+  | Some (Q, R) => Some (tab 2 2 Q, tab 2 2 R) | None => None end
+  = Some ([[-1; 0]; [0; 1]], [[2; -1]; [0; 0]]).
 Proof. vm_compute. reflexivity. Qed.
 
 (* qr / lq, "Q is an isometry", reduced mode: the k-th stored block gives the Q-block (i_k, x_k) = Q_k with x_k = map_qind[i_k] its
